@@ -271,6 +271,22 @@ def run(ctx: Any, prog: Program) -> None:
         idx = inserts[0].args[0]
         ctx.check('C19.H4', isinstance(idx, ast.Constant) and idx.value == 0, fs, inserts[0], f'a priority member is inserted at position `{U(idx)}`; lookups take the first member that has the file, so it must go to position 0',
                   func='FileSystemChain.add_sys', text='priority insertion')
+    elif len(inserts) == 1 and not appends:
+        # one insert at a computed position: `0 if priority else len(self.systems)` (inserting at len() is appending)
+        idx = inserts[0].args[0]
+        if isinstance(idx, ast.Name):
+            d_ = [a_.value for a_ in ast.walk(ads) if isinstance(a_, ast.Assign) and any(isinstance(t, ast.Name) and t.id == idx.id for t in a_.targets)]
+            idx = d_[0] if len(d_) == 1 else idx
+        if isinstance(idx, ast.IfExp) and (dotted(idx.test) == 'priority' or (isinstance(idx.test, ast.UnaryOp) and isinstance(idx.test.op, ast.Not) and dotted(idx.test.operand) == 'priority')):
+            first_, last_ = (idx.body, idx.orelse) if dotted(idx.test) == 'priority' else (idx.orelse, idx.body)
+            is_len = isinstance(last_, ast.Call) and dotted(last_.func) == 'len' and len(last_.args) == 1 and dotted(last_.args[0]) == 'self.systems'
+            if isinstance(first_, ast.Constant) and is_len:
+                ctx.check('C19.H4', first_.value == 0, fs, inserts[0], f'a priority member is inserted at position `{U(first_)}`; lookups take the first member that has the file, so it must go to position 0',
+                          func='FileSystemChain.add_sys', text='priority insertion')
+            else:
+                ctx.shape('C19.H4', False, fs, inserts[0], f'insert position `{U(idx)[:60]}` not recognised', func='FileSystemChain.add_sys', text='priority insertion')
+        else:
+            ctx.shape('C19.H4', False, fs, inserts[0], f'insert position `{U(idx)[:60]}` not recognised', func='FileSystemChain.add_sys', text='priority insertion')
     else:
         ctx.shape('C19.H4', False, fs, ads, 'insert/append pair not recognised', func='FileSystemChain.add_sys', text='priority insertion')
     # the subfolder is handed to the members as the caller spelled it: the directory backend resolves exact-case names only, so a prefix
@@ -382,6 +398,8 @@ def run(ctx: Any, prog: Program) -> None:
 
 
 MUTANTS = [
+    {'id': 'add_sys_priority_position_one', 'file': 'filesys.py', 'find': "        if priority:\n            self.systems.insert(0, (sys, prefix))\n        else:\n            self.systems.append((sys, prefix))", 'replace': "        self.systems.insert(1 if priority else len(self.systems), (sys, prefix))", 'expect': 'C19.H4'},
+    {'id': 'ok_add_sys_single_insert', 'file': 'filesys.py', 'find': "        if priority:\n            self.systems.insert(0, (sys, prefix))\n        else:\n            self.systems.append((sys, prefix))", 'replace': "        position = 0 if priority else len(self.systems)\n        self.systems.insert(position, (sys, prefix))", 'expect': None},
     {'id': 'add_sys_skips_present_member', 'file': 'filesys.py', 'find': "        if priority:\n            self.systems.insert(0, (sys, prefix))", 'replace': "        if (sys, prefix) in self.systems:\n            return\n        if priority:\n            self.systems.insert(0, (sys, prefix))", 'expect': 'C19.H4'},
     {'id': 'ok_add_sys_pair_in_local', 'file': 'filesys.py', 'find': "        if priority:\n            self.systems.insert(0, (sys, prefix))\n        else:\n            self.systems.append((sys, prefix))", 'replace': "        entry = (sys, prefix)\n        if priority:\n            self.systems.insert(0, entry)\n        else:\n            self.systems.append(entry)", 'expect': None},
     {'id': 'raw_exists_accepts_folders', 'file': 'filesys.py', 'find': "        return os.path.isfile(self._resolve_path(name))", 'replace': "        return os.path.exists(self._resolve_path(name))", 'expect': 'C19.H5'},
